@@ -223,7 +223,7 @@ def partial_cancel_oracle(ctx=None):
 # may surface on the new one (a request frame of a dead interaction would open a stream nobody owns and collide with the id
 # the next request gets)
 
-def run_lease_reconnect(cause, kinds):
+def run_lease_reconnect(cause, kinds, lease_on_first=False):
     import asyncio
     from datetime import timedelta
     from harness import sim, frames as FR
@@ -265,7 +265,11 @@ def run_lease_reconnect(cause, kinds):
                     c.fire_and_forget(Payload(tag + b'-fnf'))
                 else:
                     c.request_channel(Payload(tag + b'-rc')).subscribe(DefaultSubscriber())
-        loop.run(lambda: issue(b'old'))            # no lease yet: all of these wait
+        if lease_on_first:
+            # the first connection's server grants a generous lease: it belongs to THAT connection
+            ts[0].inject_frame(FR.build({'t': 'Lease', 'sid': 0, 'ign': False, 'ttl': 600000, 'n': 50, 'md': b''}).serialize())
+            loop.settle()
+        loop.run(lambda: issue(b'old'))            # without a lease all of these wait
         loop.settle()
         if cause == 'eof':
             ts[0].inject_eof()
@@ -274,12 +278,18 @@ def run_lease_reconnect(cause, kinds):
         else:
             loop.run(lambda: asyncio.create_task(c.reconnect()))
         loop.settle()
+        early = []
+        if lease_on_first:
+            loop.run(lambda: issue(b'early'))      # issued on the new connection BEFORE its server has granted anything
+            loop.settle()
+            early = [f for f in (sim.parse_sent(b) for b in ts[1].sent) if f['t'].startswith('Request') and f['t'] != 'RequestN']
         ts[1].inject_frame(FR.build({'t': 'Lease', 'sid': 0, 'ign': False, 'ttl': 60000, 'n': 50, 'md': b''}).serialize())
         loop.settle()
         loop.run(lambda: issue(b'new'))
         loop.settle()
         new = [sim.parse_sent(b) for b in ts[1].sent]
-        return {'new': new, 'reconnected': ts[1].connected, 'old_wire': [sim.parse_sent(b) for b in ts[0].sent]}
+        return {'new': new, 'reconnected': ts[1].connected, 'old_wire': [sim.parse_sent(b) for b in ts[0].sent],
+                'sent_before_the_new_lease': [(f['t'], f['sid']) for f in early]}
     finally:
         loop.finish()
 
@@ -288,6 +298,11 @@ def lease_reconnect_oracle():
     out = []
     for cause in ('eof', 'error', 'explicit'):
         for kinds in (('rr',), ('rs', 'rr'), ('fnf', 'rc', 'rr')):
+            r2 = run_lease_reconnect(cause, kinds, lease_on_first=True)
+            if r2['sent_before_the_new_lease'] or not r2['reconnected']:
+                out.append({'what': 'client honouring leases, lease held on the old connection (%s): requests sent on the NEW connection '
+                                    'before its server granted a lease: %s' % (cause, r2['sent_before_the_new_lease']),
+                            'lease_reconnect_case': [cause, list(kinds), True]})
             r = run_lease_reconnect(cause, kinds)
             reqs = [f for f in r['new'] if f['t'] in ('RequestResponse', 'RequestStream', 'RequestChannel', 'RequestFnf')]
             bad = []
